@@ -53,6 +53,35 @@ var roleResolvers = map[string]func(c *Ctx) *ssa.Function{
 		}
 		return nil
 	},
+	// the descriptor-byte function: the unexported helper of boc, called by the hasher, that takes a level mask and
+	// returns byte(s) (d1, or d1 and d2 merged into one function)
+	"boc:d1": func(c *Ctx) *ssa.Function {
+		nic := c.fnByName("boc", "newImmutableCell")
+		if nic == nil {
+			return nil
+		}
+		var found *ssa.Function
+		for _, ci := range callsIn(nic) {
+			h := plainHelper(ci.Common().StaticCallee())
+			if h == nil || h.Signature.Results().Len() == 0 {
+				continue
+			}
+			isByte := func(t types.Type) bool {
+				b, ok := t.Underlying().(*types.Basic)
+				return ok && b.Kind() == types.Uint8
+			}
+			takesMask := false
+			for i := 0; i < h.Signature.Params().Len(); i++ {
+				if strings.HasSuffix(h.Signature.Params().At(i).Type().String(), "boc.levelMask") {
+					takesMask = true
+				}
+			}
+			if takesMask && isByte(h.Signature.Results().At(0).Type()) {
+				found = h
+			}
+		}
+		return found
+	},
 	// the one hashing entry of a cell: the unexported method of Cell that builds the immutable cell and takes its top-level hash
 	"boc:Cell.hash": func(c *Ctx) *ssa.Function {
 		var found *ssa.Function
